@@ -192,7 +192,7 @@ func trendInds() []Ind {
 			},
 			Doc:      "EMA with multiplier Smoothing/(Period+1); 'Initial EMA value is the SMA' (code comment; the type comment is silent on the seed - not claimed).",
 			Ref:      func(c Config, in In) []ref.S { return []ref.S{ref.EmaK(in[X], c.P[0], c.F[0])} },
-			PriceDeg: []int{1}, VolDeg: []int{0}, Recursive: true,
+			PriceDeg: []int{1}, VolDeg: []int{0}, Recursive: true, ZeroF: true,
 		},
 		{
 			Name: "EnvelopeSma", Inputs: []string{X}, Params: []Param{per("period", 20)}, FParams: []float64{20}, Outs: []string{"upper", "middle", "lower"},
